@@ -61,10 +61,11 @@ Proof.
   destruct a, b, c, (k =? 0); intro H; try (split; reflexivity); try discriminate H; exfalso; lia.
 Qed.
 
-Lemma verdict_2 a b c k : verdict a b c k = 2 -> k = 0.
+Lemma verdict_2 a b c k : verdict a b c k = 2 -> k = 0 /\ b = false.
 Proof.
   unfold verdict, V_OK, V_THEOREM_GAP, V_STALE_OK, V_VIOLATION.
-  destruct a, b, c, (k =? 0) eqn:E; intro H; try discriminate H; try (apply N.eqb_eq in E; exact E); exfalso; lia.
+  destruct a, b, c, (k =? 0) eqn:E; intro H; try discriminate H;
+    try (apply N.eqb_eq in E; split; [exact E|reflexivity]); exfalso; lia.
 Qed.
 
 Section Verdict.
@@ -115,6 +116,6 @@ Section Verdict.
     rewrite E0 in Hr. inversion Hr; subst r'.
     unfold same_data at 1. rewrite Hd, value_eqb_refl. cbn [negb].
     destruct (same_all impl m && same_data m s); [discriminate|].
-    intro H. apply verdict_2 in H. exact (dexercised_nonzero _ H).
+    intro H. apply verdict_2 in H. destruct H as [H Hb]. rewrite Hb in H. exact (dexercised_nonzero _ H).
   Qed.
 End Verdict.
